@@ -6,7 +6,11 @@ from pathlib import Path
 from typing import TYPE_CHECKING, Any, Callable, Iterable
 from json import JSONEncoder, dumps
 
-from jmc.compile.utils import clean_up_paren_token, convention_jmc_to_mc
+from jmc.compile.utils import (
+    clean_up_paren_token,
+    convention_jmc_to_mc,
+    substitute_params,
+)
 
 from .pack_version import PackVersion, PackVersionFeature
 from .tokenizer import Token, TokenType, Tokenizer
@@ -146,15 +150,10 @@ class PreFunction:
                 self.tokenizer,
             )
 
-        func_content = None
-        for _param, _arg in sorted(
-            param_arg.items(), key=lambda item: len(item[0]), reverse=True
-        ):
-            func_content = (
-                self.func_content if func_content is None else func_content
-            ).replace("$" + _param, _arg)
-        if func_content is None:
-            func_content = self.func_content
+        func_content = substitute_params(
+            self.func_content,
+            {"$" + _param: _arg for _param, _arg in param_arg.items()},
+        )
         while True:
             calc_pos = func_content.find("Hardcode.calc")
             if calc_pos == -1:
